@@ -52,7 +52,8 @@ CORPUS = [  # minimal inputs of the findings fixed so far, and other hand-writte
     "e00100ea12", "e00100eaf0", "e00100eae00100", "e00100eab1e00100ea", "e00100ead180", "e00100ead10081",
     "e00100eaee0081832000", "e00100eae0", "e00100ea41", "e00100ea4300", "e00100ea718f", "e00100ea71ff",
     "e00100ead38420", "e00100eae3818420ff", "e00100eae481848100", "e00100eae38184e3", "e00100ea7900000000000000000a",
-    "e00100eab6b5b4b3b2b1", "e00100ea88c328", "e00100ea82c080", "e00100ead2841f", "e00100eab221", "e00200ea20"]
+    "e00100eab6b5b4b3b2b1", "e00100ea88c328", "e00100ea82c080", "e00100ead2841f", "e00100eab221", "e00200ea20",
+    "e00100eab2e18a848484848484848484842e017f7f7f7f7f7f7f7f6b00000000"]
 
 
 def run(ctx):
